@@ -232,7 +232,7 @@ def cases(c):
                             'cont': 'array', 'directed': True})
             out.append({'fn': 'LEVINSON', 'p': p, 'cplx': cplx, 'src': 'sample', 'kind': 'noise',
                         'indefinite': True, 'cont': 'array', 'directed': True})
-    n = 1500 if c.tier == 'quick' else 72000
+    n = 1500 if c.tier == 'quick' else 288000
     for i in range(n):
         p = int(rng.integers(1, pmax + 1))
         src = gen.pick(rng, ['sample', 'rc', 'rc'])
@@ -248,7 +248,7 @@ def cases(c):
         if rng.uniform() < 0.3:
             d['scale10'] = int(gen.pick(rng, [-18, -16, -12, -8, -4, 4, 8, 12]))
         out.append(d)
-    for i in range(600 if c.tier == 'quick' else 24000):
+    for i in range(600 if c.tier == 'quick' else 96000):
         out.append({'fn': gen.pick(rng, ['HERMTOEP', 'TOEPLITZ', 'CHOLESKY']),
                     'p': int(rng.integers(1, 21)), 'cplx': int(rng.integers(0, 2)),
                     'method': gen.pick(rng, ['scipy', 'numpy', 'numpy_solver']),
